@@ -32,7 +32,7 @@ MANIFEST = {
             "listed in the frozen who-writes table.",
     "technique": "abstract interpretation of the mutators over an affine "
                  "(index,len) domain by region + atomicity ordering rule + "
-                 "who-may-write scan",
+                 "who-may-write scan + refusal-weakening check against the reviewed guard snapshot",
 }
 NODE_MOD = "src/psyclone/psyir/nodes/node.py"
 
